@@ -96,8 +96,8 @@ def check(ctx):
         ctx.inst('R4', (path, cname), 'all-attributes-cached', not uncached, 'element attributes not cached and not in the reviewed exception table: %s' % sorted(uncached))
 
     # ---- R5 ----------------------------------------------------------------------------
-    rpat = cache_name_rules(ctx, 'R5')
-    ends = [c for c in walk_own(fetch.node) if method_call(c, 'endswith') and norm(c.args[0]) == norm(rpat[0].targets[0])]
+    rpat, rfun = cache_name_rules(ctx, 'R5')
+    ends = [c for c in walk_own(rfun.node) if method_call(c, 'endswith') and norm(c.args[0]) == norm(rpat.targets[0])]
     ctx.inst('R5', fetch, 'suffix-match', len(ends) == 1, 'candidate files are matched by name suffix')
     fcb = m.func(TOC, 'TocFetcher._new_packet_cb')
     fc = [c for c in walk_own(fcb.node) if method_call(c, 'fetch') and 'cache' in norm(c.func.value)]
@@ -171,8 +171,7 @@ def cache_name_rules(ctx, rule='R5'):
     ctx.inst(rule, fetch, 'reader-key=crc', rspec['crc_arg'] == fetch.params[1], 'lookup key is the crc argument; found %s' % rspec['crc_arg'])
     ctx.inst(rule, ins, 'writer-key=crc', wspec['crc_arg'] == ins.params[1] and wspec['prefix_args'] == ['self._rw_cache'] and wspec['sep'] == '/',
              'file name is built from rw_cache and the crc argument; found dir %s crc %s' % (wspec['prefix_args'], wspec['crc_arg']))
-    rpat = [rn[0][0]]
-    return rpat
+    return rn[0][0], rn[0][2]
 
 
 def _helper_name(klass, v):
@@ -188,7 +187,7 @@ def _helper_name(klass, v):
     return None
 
 
-def name_exprs(klass, func):
+def name_exprs(klass, func, _depth=0):
     """[(assign stmt, format expression, function it is written in)] for assignments building a '*.json' file name in func,
     following one level of same-class helper calls and os.path.join(dir, name)."""
     out = []
@@ -208,6 +207,15 @@ def name_exprs(klass, func):
             continue
         if '.json' in norm(v) and (not isinstance(v, ast.Call) or (isinstance(v.func, ast.Attribute) and v.func.attr == 'format')):
             out.append((st, v, func))
+    if not out and _depth < 1:
+        # the name may be built in a same-class helper that does the whole look-up (e.g. hit = self._find(crc))
+        from ..symexec import subst
+        for c in walk_own(func.node):
+            if isinstance(c, ast.Call) and isinstance(c.func, ast.Attribute) and norm(c.func.value) == 'self' and klass.has(c.func.attr) and c.func.attr != func.name:
+                h = klass.method(c.func.attr)
+                for st, e, hf in name_exprs(klass, h, _depth + 1):
+                    mp = {p_: a for p_, a in zip(h.params[1:], c.args)}
+                    out.append((st, subst(e, mp) if isinstance(e, ast.AST) else e, hf))
     return out
 
 
@@ -266,26 +274,28 @@ def name_spec(expr, func):
     return {'prefix_args': [a[1] for a in args[:-1]], 'sep': ''.join(lits[:-1]).replace('%', ''), 'crc_arg': crc[1], 'crc_spec': crc[2], 'suffix': lits[-1]}
 
 
-def path_source(f, node):
-    """'rw' if the path expression derives only from rw_cache / self._rw_cache, 'ro' if it mentions ro_cache, else 'unknown'."""
+def path_source(f, node, _seen=None):
+    """'rw' if the path expression derives only from rw_cache / self._rw_cache, 'ro' if it mentions ro_cache, else 'unknown'.
+    A local name takes the worst source of all its assignments in the function."""
+    seen = _seen if _seen is not None else set()
     t = norm(node)
-    seen = set()
-    while True:
-        names = {n.id for n in ast.walk(ast.parse(t, mode='eval')) if isinstance(n, ast.Name)}
-        if 'ro_cache' in names or '_ro_cache' in t:
-            return 'ro'
-        if t in ('rw_cache', 'self._rw_cache'):
-            return 'rw'
-        if isinstance(node, ast.Name) and node.id not in seen:
-            seen.add(node.id)
-            defs = [s for s in walk_own(f.node) if isinstance(s, ast.Assign) and norm(s.targets[0]) == node.id]
-            if len(defs) == 1:
-                node = defs[0].value
-                t = norm(node)
-                continue
-        if ('rw_cache' in names or 'self._rw_cache' in t) and 'name' not in names and 'hit' not in names:
-            return 'rw'
+    names = {n.id for n in ast.walk(node) if isinstance(n, ast.Name)}
+    if 'ro_cache' in names or '_ro_cache' in t:
+        return 'ro'
+    if t in ('rw_cache', 'self._rw_cache'):
+        return 'rw'
+    if isinstance(node, ast.Name) and node.id not in seen:
+        seen.add(node.id)
+        defs = [s for s in walk_own(f.node) if isinstance(s, ast.Assign) and any(norm(t_) == node.id for t_ in s.targets)]
+        if defs:
+            srcs = {path_source(f, d.value, seen) for d in defs}
+            return 'ro' if 'ro' in srcs else 'unknown' if 'unknown' in srcs else 'rw'
         return 'unknown'
+    if isinstance(node, ast.Call) and not (dotted(node.func) in ('os.path.join', 'str') or (isinstance(node.func, ast.Attribute) and node.func.attr == 'format')):
+        return 'unknown'                                                   # result of a look-up: may be any known file
+    if ('rw_cache' in names or 'self._rw_cache' in t) and 'name' not in names and 'hit' not in names:
+        return 'rw'
+    return 'unknown'
 
 
 def encoder_keys(enc):
